@@ -360,8 +360,11 @@ Definition run_C15 (inp : list Z) : list Z :=
       let fih := nZ scen in
       let c := mkCfg false false in
       let st0 := mkState unit (fun _ => None) (fun _ => None) in
+      (* the commit schedule the harness gives this configuration: --commit-interval
+         1, 2 or 5000 chosen from the shape of the case (results do not depend on it) *)
+      let k := match (nZ nb + nZ nold) mod 3 with 0 => 1 | 1 => 2 | _ => 5000 end in
       match process_chain unit tt (node_of old) (fun _ => []) unit (fun s _ _ _ => (s, []))
-                          c fih (fun _ => false) 1 st0 tt [] bs with
+                          c fih (fun h => N.eqb (h mod k) 0) 1 st0 tt [] bs with
       | inr (_, _, [], bts) => flat_map wr_btrace bts
       | _ => [(-2)%Z]
       end
